@@ -33,6 +33,9 @@ type Scenario struct {
 	// offer, which could otherwise jump to the timeout); otherwise it is 20 ms (network) / 100 ms (serial), so that a
 	// call whose reply was stolen by another goroutine ends after a few polls instead of spinning.
 	LongTimeout bool `json:"long_timeout"`
+	// SameTarget: every call asks for the same unit, address and quantity (the calls collide on everything but the
+	// transaction id; over RTU the frames are identical). Otherwise every call has its own target and reply length.
+	SameTarget bool `json:"same_target,omitempty"`
 }
 
 // Event is one transport operation as seen on the wire.
@@ -106,6 +109,7 @@ func (w *world) ev(e Event) {
 
 func (c *devConn) Write(p []byte) (int, error) {
 	vsched.PointObj("write", c.w) // every transport operation of the client is one object: the oracle reads the global wire order
+	vsched.HBSync(c)              // happens-before: operations on one connection observe and publish (as a real descriptor's lock does)
 	if c.closed {
 		c.w.ev(Event{Conn: c.id, Op: "W", Data: append([]byte(nil), p...), Err: "closed"})
 		return 0, &net.OpError{Op: "write", Net: "dev", Err: net.ErrClosed}
@@ -132,6 +136,7 @@ func (c *devConn) Read(p []byte) (int, error) {
 		dl = vsched.NowNs() + int64(time.Second)
 	}
 	vsched.PointWhenObj("read", func() bool { return len(c.chunks) > 0 || c.closed }, dl, c.w)
+	vsched.HBSync(c)
 	if c.closed {
 		c.w.ev(Event{Conn: c.id, Op: "R", Err: "closed"})
 		return 0, &net.OpError{Op: "read", Net: "dev", Err: net.ErrClosed}
@@ -155,6 +160,7 @@ func (c *devConn) Read(p []byte) (int, error) {
 
 func (c *devConn) Close() error {
 	vsched.PointObj("close", c.w)
+	vsched.HBSync(c)
 	c.w.ev(Event{Conn: c.id, Op: "C"})
 	if c.closed {
 		return &net.OpError{Op: "close", Net: "dev", Err: net.ErrClosed}
@@ -165,6 +171,7 @@ func (c *devConn) Close() error {
 
 func (c *devConn) Flush() error {
 	vsched.PointObj("flush", c.w)
+	vsched.HBSync(c)
 	c.w.ev(Event{Conn: c.id, Op: "F"})
 	return nil
 }
@@ -221,11 +228,14 @@ func (w *world) newConn(serial bool) *devConn {
 	return c
 }
 
-func request(kind string, caller, k int) (packet.Request, []byte) {
+func request(kind string, caller, k int, same bool) (packet.Request, []byte) {
 	qty := uint16(1 + caller*2 + k) // distinct reply lengths
 	addr := uint16(100 + 16*caller + k)
 	unit := uint8(1 + caller)
 	tid := uint16(0x0100*(caller+1) + k)
+	if same {
+		qty, addr, unit = 3, 100, 1
+	}
 	if kind == "tcp" {
 		r, err := packet.NewReadHoldingRegistersRequestTCP(unit, addr, qty)
 		if err != nil {
@@ -249,9 +259,13 @@ func Run(sc Scenario, cfg vsched.Config) *Result {
 	res := &Result{}
 	vsched.HarnessSleep = false
 	defer func() { vsched.HarnessSleep = true }()
+	cfg.HB = true
 	res.Out = vsched.Run(cfg, func() { w.main() })
 	if res.Out.Hung {
 		return res
+	}
+	for _, rc := range res.Out.Races {
+		res.V = append(res.V, V{Kind: "data-race", Msg: "unordered conflicting accesses (happens-before over this schedule): " + rc.String(), Attrs: map[string]any{"race": rc.Key()}})
 	}
 	w.judge(res)
 	return res
@@ -306,7 +320,7 @@ func (w *world) main() {
 	}
 	for i := 0; i < sc.Callers; i++ {
 		for k := 0; k < sc.Calls; k++ {
-			rq, b := request(map[bool]string{true: "rtu", false: "tcp"}[w.rtu], i, k)
+			rq, b := request(map[bool]string{true: "rtu", false: "tcp"}[w.rtu], i, k, sc.SameTarget)
 			dr, err := spec.DecodeReq(b, w.rtu)
 			if err != nil {
 				panic(err)
@@ -441,6 +455,11 @@ func (w *world) judge(res *Result) {
 			}
 		}
 		isNil := cr.resp == nil
+		if _, wrote := first_[n]; !wrote && cr.err == nil && !isNil {
+			// "carried out one at a time": a call that reports success has performed its own exchange
+			add("success-without-exchange", fmt.Sprintf("request call %d (caller %d) returned a response but never touched the transport; wire log: %s", n, cr.caller, w.wire()), nil)
+			continue
+		}
 		switch {
 		case closedBefore:
 			if cr.err == nil || !isNil {
